@@ -85,6 +85,23 @@ class MetaPool(object):
     ORIGINS = ('function',) * 7 + ('class', 'instance', 'plain')
 
 
+class AlwaysEqual(object):
+    """A default value like unittest.mock.ANY: compares equal to everything (Parameter.empty included)."""
+    def __eq__(self, other):
+        return True
+
+    def __ne__(self, other):
+        return False
+
+    __hash__ = object.__hash__
+
+    def __repr__(self):
+        return '<ANY>'
+
+
+ANYTHING = AlwaysEqual()
+
+
 def call(fn, *a, **k):
     """Invoke an operation of the algebra; outcomes (including exceptions) are
     the monitors' business, not the driver's."""
